@@ -18,6 +18,7 @@ import TonVerif.Drv.Address
 import TonVerif.Drv.VmStack
 import TonVerif.Drv.Cost
 import TonVerif.Drv.Tl
+import TonVerif.Drv.Hashmap
 
 open TonVerif TonVerif.Drv
 
@@ -36,6 +37,7 @@ def handlers : List (String → List String → Option String) := [
   VmStack.handle?,
   Cost.handle?
   Tl.handle?
+  Hashmap.handle?
 ]
 
 def handle (op : String) (args : List String) : String :=
